@@ -60,5 +60,5 @@ def harnesses(tier, seed):
                 for owners in owner_tables(2, 2, 1):
                     for src in ("vec", "sched", "schedx"):
                         bucket.append(collect_harness("c07", "collect_x", ty, src, 2, 2, 1, owners, k))
-        hs = cap(light, 500, seed) + cap(heavy, 40, seed)
+        hs = cap(light, 300, seed) + cap(heavy, 20, seed)
     return hs
